@@ -10,7 +10,7 @@ use std::process::{Child, ChildStdin, ChildStdout, Command, Stdio};
 
 pub static PROP: Prop = Prop {
     id: "C19",
-    rule: "(a) differential: every program is run by this process (built with the rc memory strategy) and by a server process built from the same sources with the arc strategy; stdout, outcome class and error text must be identical. Programs: every runnable corpus item (guide, core-library docs, koto test scripts), proptest-generated core programs (the C01 generator: operators, containers, control flow) and function programs (closures, generators, captures), C14 container histories over aliased containers, C13 iterator pipelines and C15 string batches. (b) atomicity under arc, run inside the arc-built binary: N in {2, 4, 8} threads, each with its own runtime sharing ONE list or map through the prelude, run generated scripts of single-container operations (push / pop / insert / remove / extend / fill / resize / sort / reverse / clear / to_tuple / size / get / contains_key / update ...). Mixes are chosen so that an invariant is checkable: (i) counting: each thread pushes / inserts / extends by K distinct tagged items and nothing removes them: afterwards exactly N x K items, each once (no lost update), also while the other half of the threads reorder the whole container with callback-free operations (list sort / reverse, map sort); (ii) uniform fill: writers only `fill` / `resize ... value` with a per-thread constant while readers take `to_tuple()` snapshots: every snapshot is uniform within the region one operation writes (no partially updated container observed); (iii) paired extend: writers `extend` by a pair through every kind of iterable (tuple, range, string, iterator adaptor, generator) and readers check every snapshot has even length with equal neighbours; (iv) every language-level read form (index, slice, size, first / last, get, contains, iteration, access, keys, `rest...` patterns in match arms and arguments, unpacking) looping against push / pop or insert / remove writers, and mixed mutation storms, with a watchdog: every thread finishes (no deadlock on a single container) and the container is still well-formed (size equals the number of iterated items, map keys unique). Non-trivial: (a) programs that build containers, closures or iterators; (b) every stress run.",
+    rule: "(a) differential: every program is run by this process (built with the rc memory strategy) and by a server process built from the same sources with the arc strategy; stdout, outcome class and error text must be identical. Programs: every runnable corpus item (guide, core-library docs, koto test scripts), proptest-generated core programs (the C01 generator: operators, containers, control flow) and function programs (closures, generators, captures), C14 container histories over aliased containers, C13 iterator pipelines and C15 string batches. (b) atomicity under arc, run inside the arc-built binary: N in {2, 4, 8} threads, each with its own runtime sharing ONE list or map through the prelude, run generated scripts of single-container operations (push / pop / insert / remove / extend / fill / resize / sort / reverse / clear / to_tuple / size / get / contains_key / update ...). Mixes are chosen so that an invariant is checkable: (i) counting: each thread pushes / inserts / extends by K distinct tagged items and nothing removes them: afterwards exactly N x K items, each once (no lost update), also while the other half of the threads reorder the whole container with callback-free operations (list sort / reverse, map sort); (ii) uniform fill: writers only `fill` / `resize ... value` with a per-thread constant while readers take `to_tuple()` snapshots or render the list to text (display, debug, inside a container): every snapshot / rendering is uniform within the region one operation writes (no partially updated container observed); (iii) paired extend: writers `extend` by a pair through every kind of iterable (tuple, range, string, iterator adaptor, generator) and readers check every snapshot has even length with equal neighbours; (iv) every language-level read form (index, slice, size, first / last, get, contains, iteration, access, keys, `rest...` patterns in match arms and arguments, unpacking) looping against push / pop or insert / remove writers, and mixed mutation storms, with a watchdog: every thread finishes (no deadlock on a single container) and the container is still well-formed (size equals the number of iterated items, map keys unique). Non-trivial: (a) programs that build containers, closures or iterators; (b) every stress run.",
     assumptions: &[
         "the arc build is a second cargo target directory of the same engine crate (features = arc); it is rebuilt from /repo's working tree by ./check C19",
         "stress runs repeat with varied thread counts and mixes; interleavings are explored by repetition, not controlled scheduling (loom / shuttle cannot drive parking_lot locks inside koto without patching it)",
@@ -162,6 +162,16 @@ mod stress {
             "count-map" => {
                 s.push_str(&format!("for i in 0..{k}\n  shared.insert '{tid}:{{i}}', i\n  if i % 5 == 0\n    x = shared.get '{tid}:0'\n    assert x == 0\n"));
             }
+            "fill-display" => {
+                // readers render the list to text (display / debug / interpolation in a container): every
+                // rendering shows one fill value only
+                if tid % 2 == 0 {
+                    s.push_str(&format!("for i in 0..{k}\n  shared.fill {tid}\n"));
+                } else {
+                    let render = ["s = '{shared}'", "s = '{shared:?}'", "w = '{(shared, 1)}'\n  s = w[1..(size w) - 4]"][(tid / 2 + seed as usize) % 3];
+                    s.push_str(&format!("bad = 0\nfor i in 0..{k}\n  {render}\n  items = s[1..(size s) - 1].split(', ').to_tuple()\n  if items.any(|x| x != items[0])\n    bad += 1\nexport bad = bad\n"));
+                }
+            }
             "fill" => {
                 if tid % 2 == 0 {
                     s.push_str(&format!("for i in 0..{k}\n  shared.fill {tid}\n"));
@@ -279,7 +289,7 @@ mod stress {
             KValue::List(KList::from_slice(&[KValue::Number(1.into()), KValue::Number(2.into()), KValue::Number(3.into())]))
         } else if is_map {
             KValue::Map(KMap::default())
-        } else if mix == "fill" {
+        } else if mix == "fill" || mix == "fill-display" {
             KValue::List(KList::from_slice(&vec![KValue::Number(0.into()); 64]))
         } else {
             KValue::List(KList::default())
@@ -395,7 +405,7 @@ mod stress {
                     }
                 }
             }
-            "fill" | "pairs" | "pairs-range" | "pairs-string" | "pairs-adaptor" | "pairs-generator" => {
+            "fill" | "fill-display" | "pairs" | "pairs-range" | "pairs-string" | "pairs-adaptor" | "pairs-generator" => {
                 if bad_snapshots > 0 {
                     return json!({"violation": "torn-read", "detail": format!("{bad_snapshots} snapshots showed a partially applied {mix} operation")});
                 }
@@ -429,7 +439,7 @@ mod stress {
     }
 }
 
-pub const MIXES: [&str; 17] = ["pairs-range", "pairs-string", "pairs-adaptor", "pairs-generator", "reorder-count-list", "reorder-count-map", "count-list", "count-map", "fill", "pairs", "map-update", "storm-list", "storm-map", "extend-count-map", "extend-count-list", "read-forms-list", "read-forms-map"];
+pub const MIXES: [&str; 18] = ["fill-display", "pairs-range", "pairs-string", "pairs-adaptor", "pairs-generator", "reorder-count-list", "reorder-count-map", "count-list", "count-map", "fill", "pairs", "map-update", "storm-list", "storm-map", "extend-count-map", "extend-count-list", "read-forms-list", "read-forms-map"];
 
 fn eval_stress(server: &mut ArcServer, mix: &str, threads: usize, k: usize, seed: u64) -> Eval {
     let mut ev = Eval::pass(true).class(intern(&format!("stress:{mix}")));
